@@ -757,7 +757,7 @@ func sameOneofAsVar(p *plan, lf leaf) bool {
 	return false
 }
 
-const ruleC03 = "rules: body '*', body <field>, no body; path variables on top-level, nested and doubly nested fields, custom json_name fields, typed / enum / bytes / oneof / well-known-type variables, multi-segment and ** patterns, verb suffix; over the harness type vf.Req (dynamic), larking.testpb.ComplexRequest (dynamic rules) and the real larking.testpb annotations (Messaging, WellKnown, Complex). Positive cases: (a) systematic - every URL-expressible leaf field (depth <= 3) x every entry of its boundary table (int/uint 32/64 extremes, +-0, subnormal/max floats, empty/long/unicode/percent/quote strings, all base64 alphabets and padding lengths, enum names and unknown numbers, lists of length 1-3, every oneof arm, wrappers, Timestamp min/max/nanos, Duration +-, FieldMask nested paths), alone in a message with the path-bound fields; (b) random multi-field messages incl. maps, repeated messages, Struct/Value/ListValue/Any/Empty in the body part. The message is split into path captures (documented path characters only), percent-encoded query pairs (proto names / JSON names / mixed, shuffled keeping element order, enums by name or number) and a body (application/json with protojson option variations, application/protobuf, application/octet-stream, Content-Type absent; with and without Content-Encoding: gzip). Cases also rotate over a mux built with StatsOption and pass-through unary / stream interceptors, and a mux whose FilesOption registry is a second build of the descriptors from a revision of the types file with re-ordered and added fields (handlers keep using the first build). URL-only requests to the default mux are followed by the same request to a mux serving another generation of vf.Req (same field names, swapped numbers between same-kind fields; handler messages compared by name). Every rule is registered on two muxes - default options, and two extra media types (application/x-vf-json, application/x-vf-proto, magic-prefixed protojson / wire codecs) added with larking.CodecOption, whose bodies are sent too; cases alternate between them. Requests with a body rotate through one delivery feature each: HTTP/1.1 Content-Length (default), HTTP/2 with content-length, HTTP/2 without (ContentLength -1, no Transfer-Encoding), HTTP/1.0 close-delimited (ContentLength -1), HTTP/1.1 chunked, fragmented reads (random cuts, 1-byte reads, data-with-EOF), gzip bodies of 2 and 3 members cut at random offsets and with an empty member (RFC 1952). The recording handler must receive a proto.Equal message; a failure that disappears when the same request is delivered the default way is keyed by the delivery feature. Scope of positive claims: canonical protojson text forms, finite floats, no null, wrapper strings not enclosed in double quotes, maps / repeated messages / Struct / Any only in the body, body selectors on top-level fields. Wire-byte alphabet dimension: protobuf / octet-stream / gzip / JSON bodies of messages whose field 1 (string, bytes, fixed64, fixed32, double) and / or field 4 (int64, sint64, uint32, int32) hold values encoded as one repeated byte out of {0x20, 0x09, 0x0a, 0x0d, 0x00, 0x7f, 0xff, '{', '\"', 0x01, 0x80} (1-32 bytes), incl. bodies that consist only of JSON white-space bytes, on body '*' and body-field rules; JSON bodies surrounded by white space are a delivery feature. Body boundary dimension (own schema vf.transcode.Deep / Node plus ComplexRequest, body '*' and body field, JSON and protobuf, plain and gzip): nesting depth 1, 10, 49, 50, 51, 60, 99, 100, 101, 150, 500 (thorough 2000) of a self-recursive message (singular and repeated field), of google.protobuf.Value lists, Struct and ListValue; strings / bytes of 10^4..10^6 bytes and repeated / map fields of 10^4..10^5 elements (below the 4 MiB receive limit); the reference is what protojson / proto with default options reconstruct. A fifth of the requests with path variables send the path in an over-escaped spelling (one or all characters that need no escaping as %XX, upper / lower hex; URL.Path and URL.RawPath set from url.ParseRequestURI as a server does), with values containing plus signs and the other sub-delimiters: the decoded text must arrive. Path values include dot segments ('.', '..', '...', 'a.', '.a') alone and inside multi-segment captures (delivered verbatim); ** captures with empty segments are one-sided (refused or verbatim, never cleaned). One-sided cases: hostile text tables per kind and random single-character mutations of canonical texts through the query string and (path-safe texts) the path: if protojson rejects the text as bare and as quoted JSON scalar the request must fail before the handler; if larking accepts, the delivered message must equal a protojson reading. distinct = (rule, channel path|query|body-<codec>[+gzip], field kind class, value/text class, outcome)"
+const ruleC03 = "rules: body '*', body <field>, no body; path variables on top-level, nested and doubly nested fields, custom json_name fields, typed / enum / bytes / oneof / well-known-type variables, multi-segment and ** patterns, verb suffix; over the harness type vf.Req (dynamic), larking.testpb.ComplexRequest (dynamic rules) and the real larking.testpb annotations (Messaging, WellKnown, Complex). Positive cases: (a) systematic - every URL-expressible leaf field (depth <= 3) x every entry of its boundary table (int/uint 32/64 extremes, +-0, subnormal/max floats, empty/long/unicode/percent/quote strings, all base64 alphabets and padding lengths, enum names and unknown numbers, lists of length 1-3, every oneof arm, wrappers, Timestamp min/max/nanos, Duration +-, FieldMask nested paths), alone in a message with the path-bound fields; (b) random multi-field messages incl. maps, repeated messages, Struct/Value/ListValue/Any/Empty in the body part. The message is split into path captures (documented path characters only), percent-encoded query pairs (proto names / JSON names / mixed, shuffled keeping element order, enums by name or number) and a body (application/json with protojson option variations, application/protobuf, application/octet-stream, Content-Type absent; with and without Content-Encoding: gzip). Cases also rotate over a mux built with StatsOption and pass-through unary / stream interceptors, and a mux whose FilesOption registry is a second build of the descriptors from a revision of the types file with re-ordered and added fields (handlers keep using the first build). URL-only requests to the default mux are followed by the same request to a mux serving another generation of vf.Req (same field names, swapped numbers between same-kind fields; handler messages compared by name). Every rule is registered on two muxes - default options, and two extra media types (application/x-vf-json, application/x-vf-proto, magic-prefixed protojson / wire codecs) added with larking.CodecOption, whose bodies are sent too; cases alternate between them. Requests with a body rotate through one delivery feature each: HTTP/1.1 Content-Length (default), HTTP/2 with content-length, HTTP/2 without (ContentLength -1, no Transfer-Encoding), HTTP/1.0 close-delimited (ContentLength -1), HTTP/1.1 chunked, fragmented reads (random cuts, 1-byte reads, data-with-EOF), gzip bodies of 2 and 3 members cut at random offsets and with an empty member (RFC 1952). The recording handler must receive a proto.Equal message; a failure that disappears when the same request is delivered the default way is keyed by the delivery feature. Scope of positive claims: canonical protojson text forms, finite floats, no null, wrapper strings not enclosed in double quotes, maps / repeated messages / Struct / Any only in the body, body selectors on top-level fields. Wire-byte alphabet dimension: protobuf / octet-stream / gzip / JSON bodies of messages whose field 1 (string, bytes, fixed64, fixed32, double) and / or field 4 (int64, sint64, uint32, int32) hold values encoded as one repeated byte out of {0x20, 0x09, 0x0a, 0x0d, 0x00, 0x7f, 0xff, '{', '\"', 0x01, 0x80} (1-32 bytes), incl. bodies that consist only of JSON white-space bytes, on body '*' and body-field rules; JSON bodies surrounded by white space are a delivery feature. Body boundary dimension (own schema vf.transcode.Deep / Node plus ComplexRequest, body '*' and body field, JSON and protobuf, plain and gzip): nesting depth 1, 10, 49, 50, 51, 60, 99, 100, 101, 150, 500 (thorough 2000) of a self-recursive message (singular and repeated field), of google.protobuf.Value lists, Struct and ListValue; strings / bytes of 10^4..10^6 bytes and repeated / map fields of 10^4..10^5 elements (below the 4 MiB receive limit); the reference is what protojson / proto with default options reconstruct. A fifth of the requests with path variables send the path in an over-escaped spelling (one or all characters that need no escaping as %XX, upper / lower hex; URL.Path and URL.RawPath set from url.ParseRequestURI as a server does), with values containing plus signs and the other sub-delimiters: the decoded text must arrive. Path values include dot segments ('.', '..', '...', 'a.', '.a') alone and inside multi-segment captures (delivered verbatim); ** captures with empty segments are one-sided (refused or verbatim, never cleaned). At the very end a set of body cases is served by a default mux, an unrelated mux is created with CodecOption / CompressorOption for the built-in keys (other codecs under application/json, application/protobuf, application/octet-stream, a pass-through gzip), and the same cases are served again by the first mux: nothing may change. One-sided cases: hostile text tables per kind and random single-character mutations of canonical texts through the query string and (path-safe texts) the path: if protojson rejects the text as bare and as quoted JSON scalar the request must fail before the handler; if larking accepts, the delivered message must equal a protojson reading. distinct = (rule, channel path|query|body-<codec>[+gzip], field kind class, value/text class, outcome)"
 
 // RunC03 is the transcoded-request-reconstruction check.
 func RunC03(r *mon.Run) {
@@ -936,10 +936,10 @@ func RunC03(r *mon.Run) {
 			}
 		}
 	}
+	// last of all: another mux with options for built-in keys appears in the process
+	runForeignC03(r, g)
 }
 
-// muxIsolated: a failure on a non-default mux that disappears on the default
-// mux is keyed by the mux configuration instead of the field class.
 func muxIsolated(c *Case, o outcome, envOf func(*Case) *env) outcome {
 	if len(o.viols) == 0 || c.Mux == "" || strings.Contains(o.viols[0].key, ":transport:") || strings.HasPrefix(o.viols[0].key, "panic@") {
 		return o
